@@ -21,6 +21,7 @@ NPROC = int(os.environ.get("VERIF_JOBS", "16"))
 PANIC = -999999
 ABORT = -999998
 TIMEOUT = -999997
+PANIC_ARITH = -999996
 
 ALLOWED_AXIOMS = {
     # standard-library axioms that Flocq / Reals bring in (only float / real files)
@@ -283,6 +284,8 @@ def _run_harness_shard(binary, path, n_lines, per_case_timeout):
                 parts = line.split()
                 if parts[1:] == ["PANIC"]:
                     res[parts[0]] = [PANIC]
+                elif parts[1:] == ["PANIC_ARITH"]:
+                    res[parts[0]] = [PANIC_ARITH]
                 else:
                     res[parts[0]] = [int(x) for x in parts[1:]]
         done = len([i for i in ids[skip:] if i in res])
